@@ -330,6 +330,20 @@ def gen_cases(ctx, n):
         seq = w + fill + w2
         cases.append(dict(pat=pat, k=k, indel=False, seq=seq, begin=0, length=-1, apis=True, rcseq=revcomp_text(seq)))
         cases.append(dict(pat=pat, k=k, indel=True, seq=seq, begin=0, length=-1, apis=True))
+    # indel matches in a remainder shorter than the pattern: an occurrence carrying deletions ends flush with the sequence
+    # and the search starts fewer than |pattern| symbols before the end (truncated primer at the 3' end of a read)
+    for m in (6, 9, 12, 18, 20, 25, 33):
+        for ndel in (1, 2, 3):
+            pat = gen_pattern(rng, m, 0.0)
+            P = parse_pattern(pat)
+            w = instance(rng, P)
+            for _ in range(ndel):
+                del w[rng.randrange(0, len(w))]
+            pre = "".join(rng.choice("acgt") for _ in range(rng.randrange(0, 30)))
+            seq = pre + "".join(w)
+            for begin in sorted({len(pre), max(0, len(pre) - 1), max(0, len(seq) - m + 1), 0}):
+                cases.append(dict(pat=pat, k=ndel, indel=True, seq=seq, begin=begin, length=-1, apis=True, tag="indel-remainder-shorter-than-pattern"))
+            cases.append(dict(pat=pat, k=ndel, indel=True, seq="".join(w), begin=0, length=-1, apis=True, tag="sequence-shorter-than-pattern"))
     for _ in range(n):
         cases.append(gen_case(rng))
     return cases
